@@ -1026,6 +1026,8 @@ class Curve(BaseCurve):
         error = np.dot(
             np.moveaxis(other.ctrlpoints, 0, -1), np.dot(materror, other.ctrlpoints)
         )
+        if np.ndim(error) == 2:  # vector-valued points: one error per coordinate
+            error = np.diag(error)
         error = np.max(np.abs(error))
         if other.weights is not None:
             error += np.dot(other.weights, np.dot(materror, other.ctrlpoints))
